@@ -728,6 +728,7 @@ class SymCtx(BaseCtx):
         self.rewrites = []
         self._rewrite_ids = set()
         self.observed_fp = {}
+        self.max_candidates = 10      # witnesses extracted per path; further failing obligations are only counted
 
     # -- inputs --------------------------------------------------------------------------------------------------
     def var(self, name, lo=None, hi=None, lo_strict=False, hi_strict=False, integer=False, nice=None):
@@ -943,8 +944,9 @@ class SymCtx(BaseCtx):
             return True
         if r == "sat":
             self.stats["sat"] += 1
-            inputs = self.nice_model(s) or self.model_inputs(m)
-            self.candidates.append((label, inputs))
+            if len(self.candidates) < self.max_candidates:
+                inputs = self.nice_model(s) or self.model_inputs(m)
+                self.candidates.append((label, inputs))
             self.obligations.append(Obligation(label, "sat", str(s)[:300], dt, kind))
             return False
         self.stats["inconclusive"] += 1
@@ -1135,14 +1137,15 @@ class SymCtx(BaseCtx):
             self.stats["concrete_ok"] += 1
             self.obligations.append(Obligation(label, "ok", None, 0.0, "concrete"))
             return True
-        inputs = self.nice_model(None, margin_only=robust)
+        inputs = self.nice_model(None, margin_only=robust) if (robust or len(self.candidates) < self.max_candidates) else None
         if inputs is None and robust:
             self.stats["boundary_only"] = self.stats.get("boundary_only", 0) + 1
             self.obligations.append(Obligation(label, "boundary-only", detail, 0.0, "concrete"))
             return True
         self.stats["concrete_fail"] += 1
-        inputs = inputs or self.model_inputs(self._ensure_model())
-        self.candidates.append((label, inputs))
+        if len(self.candidates) < self.max_candidates:
+            inputs = inputs or self.model_inputs(self._ensure_model())
+            self.candidates.append((label, inputs))
         self.obligations.append(Obligation(label, "fail", detail, 0.0, "concrete"))
         return False
 
@@ -1220,9 +1223,11 @@ class SymCtx(BaseCtx):
                 nice.append(z3.And(c >= to_z3(lo), c <= to_z3(hi)))
         attempts = []
         if want_margin:
-            ml = self._margin_lits(Fraction(1, 1000))
-            attempts.append(ml + nice)
-            attempts.append(ml)
+            for eps in (Fraction(1, 1000), Fraction(1, 10 ** 6), Fraction(1, 10 ** 9)):
+                ml = self._margin_lits(eps)
+                if eps == Fraction(1, 1000):
+                    attempts.append(ml + nice)
+                attempts.append(ml)
         if not margin_only:
             attempts.append(list(self.lits) + nice)
         for att in attempts:
@@ -1237,6 +1242,15 @@ class SymCtx(BaseCtx):
             if m is not None:
                 return self.model_inputs(m)
         return None
+
+    def lits_hold_at(self, inputs):
+        subs = [(c, (z3.IntVal(int(inputs[n])) if spec["integer"] else z3.RealVal(inputs[n])))
+                for n, (c, spec) in self.vars.items() if n in inputs]
+        for lit in self.lits:
+            r = z3.simplify(z3.substitute(lit, *subs))
+            if not z3.is_true(r):
+                return False
+        return True
 
     def eval_at(self, inputs, value):
         """Evaluate a symbolic value at concrete inputs (exact rational arithmetic through z3 substitution)."""
@@ -1426,7 +1440,19 @@ def explore(harness, params, max_paths=256, max_seconds=600.0, solver_timeout_ms
             pr.vars = {n: spec for n, (c, spec) in ctx.vars.items()}
             if fidelity:
                 try:
-                    inputs = ctx.nice_model(None)
+                    # fidelity witnesses must lie strictly inside the path (a boundary witness is decided by float rounding)
+                    inputs = ctx.nice_model(None, margin_only=True)
+                    if inputs is not None:
+                        # the witness must stay on this path when every input moves by 1e-9 (relative) either way:
+                        # otherwise float rounding, not the model, decides which branch the concrete run takes
+                        for sgn in (1, -1):
+                            pert0 = {n: (v if ctx.vars[n][1]["integer"] else v * (1 + sgn * Fraction(1, 10 ** 9)))
+                                     for n, v in inputs.items() if n in ctx.vars}
+                            if not ctx.lits_hold_at(pert0):
+                                inputs = None
+                                break
+                    if inputs is None:
+                        stats["fidelity_skipped_no_interior_witness"] = stats.get("fidelity_skipped_no_interior_witness", 0) + 1
                     if inputs is not None:
                         obs = {}
                         for k, v in ctx.observed.items():
